@@ -61,6 +61,8 @@ def t_of(entry_tuple):
 
 
 def strip_none(v):
+    if isinstance(v, sv.SNone):
+        return sv.STime(z3.Int("none!dummy"))  # never used: callers guard with Not(is_none(v))
     if isinstance(v, sv.SUnion):
         alts = [(g, x) for g, x in v.alts if not isinstance(x, sv.SNone)]
         r = alts[-1][1]
@@ -295,6 +297,21 @@ SRCVAL = z3.Function("served", sv.IntS, sv.IntS, sv.RealS)  # what the n-th logg
 
 def schema3(reg):
     reg.field("$pull_log", TList(PullRec))
+    reg.field("$notify_log", TList(TTup(TRef("IInput"), TimeOpt)))  # ghost: (target, time) of every source_updated call
+
+
+def notify_log(ctx):
+    return ctx.get(WORLD, "$notify_log")
+
+
+def notified(ctx, l0, l1, targets, upto, time_sv):
+    """l1 = l0 ++ [(targets[i], time) for i < upto]"""
+    i = z3.Int(sv.uid("ni"))
+    return And(l1.n == l0.n + upto,
+               z3.ForAll([i], Implies(And(0 <= i, i < l0.n), sv.value_eq(l1.at(i), l0.at(i)))),
+               z3.ForAll([i], Implies(And(0 <= i, i < upto),
+                                      And(sv.value_eq(l1.at(l0.n + i).items[0], targets.at(i)),
+                                          sv.value_eq(l1.at(l0.n + i).items[1], time_sv)))))
 
 
 def pull_log(ctx):
